@@ -92,6 +92,6 @@ func (k Keeper) CalculateBaseFee(ctx sdk.Context) *big.Int {
 
 	// Set global min gas price as lower bound of the base fee, transactions below
 	// the min gas price don't even reach the mempool.
-	minGasPrice := params.MinGasPrice.TruncateInt().BigInt()
+	minGasPrice := params.MinGasPrice.Ceil().TruncateInt().BigInt()
 	return math.BigMax(x.Sub(parentBaseFee, baseFeeDelta), minGasPrice)
 }
